@@ -507,6 +507,7 @@ fn components() -> J {
                     "the 7 AArch64 intrinsics used by the Neon engine (emulated from the Arm ARM semantics)",
                     "Sim A writers, storage nodes, readers, network, disks and clock (harness code)",
                     "reference models R1 (closed-form Cauchy encoder), R2 (API state machine), R4 (envelope / rate rule), R5 (sizing)",
+                    "global allocator: a counting wrapper around the system allocator that places alignment-1 blocks 0, 1, 2, 4, 8 or 12 bytes past a 16-byte boundary (fault F21)",
                 ]
                 .iter()
                 .map(|s| J::s(*s))
